@@ -25,6 +25,7 @@ META = {
     "not_decided": ["exactness of the byte counter as an induction over arbitrary histories (decided per update() call: R-11.3 + R-11.5)",
                     "equality with the reference at exactly MAX bytes (C01 at a boundary)"],
 }
+TECHNIQUE = 'path rules for the saturation guards and counters, affine-window evaluation of the prologue, panic-site idiom discharge (interval + linear relational reasoning), 32-bit target analysis'
 
 
 def run(ctx, FS):
